@@ -277,7 +277,7 @@ class ShardJob:
         self.extra_prelude = extra_prelude
 
 
-def _do_shard(job, so, deps, compile_timeout, run_timeout):
+def _do_shard(job, so, deps, compile_timeout, run_timeout, single_round=False):
     """Compile one shard to the fixpoint, optionally run it.  Returns list of CaseResult (same order as job.cases)."""
     results = [CaseResult(c) for c in job.cases]
     live = list(range(len(job.cases)))
@@ -289,6 +289,10 @@ def _do_shard(job, so, deps, compile_timeout, run_timeout):
         cases = [job.cases[i] for i in live]
         if not cases:
             return results
+        if single_round:
+            # sentinel: a request educe always refuses, placed last; its diagnostic proves that macro expansion
+            # reached the end of the shard (a fatal parse error earlier would silently skip the remaining cases)
+            cases = cases + [Case('sentinel', '#[derive(Educe)]\n#[educe(VerifSentinel)]\nstruct Sentinel;\n', run=False)]
         text, spans = render_shard(cases, job.run and any(c.run for c in cases), job.extra_prelude)
         with open(src, 'w') as f:
             f.write(text)
@@ -305,11 +309,26 @@ def _do_shard(job, so, deps, compile_timeout, run_timeout):
             for part in (live[:mid], live[mid:]):
                 sub = ShardJob(job.sid, [job.cases[i] for i in part], job.run, job.wdir, job.extra_prelude)
                 sub.sid = job.sid
-                rs = _do_shard(sub, so, deps, compile_timeout, run_timeout)
+                rs = _do_shard(sub, so, deps, compile_timeout, run_timeout, single_round)
                 for i, r in zip(part, rs):
                     results[i] = r
             return results
         per, loose = parse_diags(se, spans)
+        if single_round:
+            sent = per.pop(len(cases) - 1, [])
+            if not any('VerifSentinel' in d['msg'] for d in sent) and rc in (0, 1):
+                if len(live) == 1:
+                    r = results[live[0]]
+                    r.status = 'parse_abort'
+                    r.diags.append({'level': 'error', 'code': None, 'kind': 'hand', 'msg': 'macro expansion did not reach the end of the program: ' + se[-300:]})
+                    return results
+                mid = len(live) // 2
+                for part in (live[:mid], live[mid:]):
+                    sub = ShardJob(job.sid, [job.cases[i] for i in part], job.run, job.wdir, job.extra_prelude)
+                    rs = _do_shard(sub, so, deps, compile_timeout, run_timeout, single_round)
+                    for i, r in zip(part, rs):
+                        results[i] = r
+                return results
         bad = [l for l in loose if l['level'] in ('error',)]
         if bad and not per:
             raise MachineryError('unattributed rustc error in shard %s: %s' % (src, bad[0]['msg'][:500]))
@@ -333,6 +352,8 @@ def _do_shard(job, so, deps, compile_timeout, run_timeout):
                 r.status = 'hand_error'
         if rc != 0 and not failed:
             raise MachineryError('rustc failed on %s without attributable error: %s' % (src, se[-800:]))
+        if single_round:
+            return results
         if failed:
             live = [i for k, i in enumerate(live) if k not in failed]
             if rounds > 12:
@@ -376,7 +397,7 @@ def _do_shard(job, so, deps, compile_timeout, run_timeout):
 
 
 def rt_run(cases, run=True, shard_size=None, name='rt', compile_timeout=900, run_timeout=600, extra_prelude='',
-           keep=False):
+           keep=False, single_round=False):
     """Execute all cases on the real macro.  Returns list of CaseResult in input order."""
     so, deps = build_macro()
     if shard_size is None:
@@ -395,7 +416,7 @@ def rt_run(cases, run=True, shard_size=None, name='rt', compile_timeout=900, run
     results = []
     t0 = time.time()
     with cf.ThreadPoolExecutor(max_workers=JOBS) as ex:
-        futs = [ex.submit(_do_shard, j, so, deps, compile_timeout, run_timeout) for j in jobs]
+        futs = [ex.submit(_do_shard, j, so, deps, compile_timeout, run_timeout, single_round) for j in jobs]
         for f in futs:
             results.extend(f.result())
     log('[rt] %s: %d cases in %d shards, %.1fs' % (name, n, len(jobs), time.time() - t0))
